@@ -7,7 +7,8 @@ ID = "C11"
 LEVEL = "proof"
 PROPERTIES_MODULE = "Properties.C11"
 COQ_TARGETS = ["Properties/C11.vo", "Model/Dispatch.vo"]
-THEOREMS = ["C11_source_flag", "C11_slot_update", "C11_hash_set_history_free"]
+THEOREMS = ["C11_source_flag", "C11_slot_update", "C11_hash_set_history_free", "C11_hash_set_offers_every_point",
+            "C11_selection_order_independent", "C11_values_order_independent", "C11_monitors_sound"]
 AXIOMS_ALLOWED = []
 TRANSLATORS = [("flags-ord", sklib.translate_flags_ord)]
 TRUSTED_BASE = [
@@ -19,9 +20,13 @@ TRUSTED_BASE = [
     "translate/tr_flags.py (is the early exit on a rejected value present?)",
     "extraction (ExtrOcamlBasic) + ocaml/driver.ml",
 ]
-ASSUMPTIONS = ["PARTIAL: the theorem that a slot holds the l smallest values over all pairs (hence independence from sequence order) "
-               "is not yet proved in Coq; order independence is currently decided by the correspondence (model = code) together "
-               "with the implementation-level permutation search for l = 1"]
+ASSUMPTIONS = ["the theorems are about the model; the model is tied to the code by the correspondence on sampled sequences",
+               "C11_selection_order_independent needs the values falling in one slot to be pairwise distinct (an exact tie between two "
+               "pairs is decided by insertion order, in the code as in the model); the boolean monitors of that hypothesis and of "
+               "script well-formedness are evaluated on every case and their shares are in the evidence; the values layer "
+               "(C11_values_order_independent) needs no such hypothesis",
+               "the per-pair generator is a function of (element hash, occurrence number, seed) only: mirrored in the harness, "
+               "pinned by agreement of outputs"]
 
 
 def correspond(run):
@@ -48,7 +53,18 @@ def correspond(run):
                   rule="sequences of length l..40 over alphabets of 2, 4, 20 and 2^30 symbols (with and without repeats), m 1..32, "
                        "l 1..6, after 0..2 earlier hash_set calls; compared: selected indices (sorted) and values of every slot; "
                        "non-trivial = distinct case longer than l", extra=dist)
+    dist["pairs_ok_share"] = round(sum(1 for r in res if len(r) > 1 and r[1] == 1) / max(1, len(res)), 4)
+    dist["slot_values_distinct_share"] = round(sum(1 for r in res if len(r) > 2 and r[2] == 1) / max(1, len(res)), 4)
+    run.coverage["hypothesis_monitors"] = {"pairs_ok": dist["pairs_ok_share"], "slot_values_distinct": dist["slot_values_distinct_share"]}
     run.oblige("correspondence:ordminhash", "correspondence", not bad, "%d differ; first %s" % (len(bad), bad[:2]))
+    tied = [c["meta"] for c, r in zip(cases, res) if r[0] == 0 and len(r) > 2 and r[2] != 1]
+    run.oblige("hypotheses:slot-values-distinct", "correspondence", not tied,
+               "%d of %d sequences have two pairs with the same value in one slot (theorem C11_selection_order_independent does not "
+               "cover them); first m=%s l=%s data=%s" % (len(tied), len(res), tied[0]["m"] if tied else "", tied[0]["l"] if tied else "",
+                                                        tied[0]["data"] if tied else ""))
+    illformed = [c["meta"] for c, r in zip(cases, res) if r[0] == 0 and len(r) > 1 and r[1] != 1]
+    run.oblige("hypotheses:scripts-well-formed", "correspondence", not illformed,
+               "pair scripts outside the theorems' hypotheses (values must not decrease, slots < m, at most m points): %s" % illformed[:2])
     run.oblige("direct:signature-is-hash-of-selected", "correspondence", not sigbad, "%s" % sigbad[:2])
 
 
@@ -59,7 +75,7 @@ def direct(run):
         return
     run.coverage["impl_sequences_checked"] = js["tried"]
     for f in js["found"]:
-        if f["key"] in ("ord-l1-perm", "ord-panic", "ord-history"):
+        if f["key"] in ("ord-l1-perm", "ord-select-perm", "ord-panic", "ord-history"):
             run.violation(f["key"], f["text"], {"kind": "impl-input", "sketcher": "ProbOrdMinHash2", "input": f["input"], "observed": f["text"]})
 
 
